@@ -3,6 +3,8 @@
      skel  one type s-expression per line (as dumped by harness bin c02, with the excluded sets the
            parser computed)  ->  F <skeleton of contract_of T> TAB S <skeleton of contract_static_of T>
            TAB N <number of negative checks of T> TAB NS <same for static_type T> TAB WK <0|1>
+     negs  one type s-expression per line  ->  its negative checks, `path kind` separated by `;`
+           (path steps D C E I F:<hex field> V:<hex tag> joined by `/`)
      beh   one behavioural case per line (tab separated, see below)  ->
            <prediction default> TAB <prediction static-full> TAB <Nickel program>
    The skeleton and the predictions are computed by the functions extracted from Coq
@@ -253,6 +255,24 @@ let rec wk t kenv =
   | TForall (x, k, t) -> wk t ((x, k) :: kenv)
   | TVar x -> (match List.assoc_opt x kenv with Some KType -> true | _ -> false)
 
+(* ---------------------------------------------------------------- the negative checks of a type *)
+let show_step = function
+  | SDom -> "D" | SCodom -> "C" | SElem -> "E" | SDict -> "I"
+  | SField f -> "F:" ^ hexs f
+  | SVariant t -> "V:" ^ hexs t
+
+let show_kind = function
+  | KNumber -> "number" | KString -> "string" | KBoolean -> "bool"
+  | KIsArray -> "isarray" | KIsFun -> "isfun" | KIsRecord -> "isrecord" | KIsEnum -> "isenum"
+  | KHasField f -> "hasfield:" ^ hexs f
+  | KNoExtra -> "noextra" | KEnumTag -> "enumtag"
+  | KVar _ -> "var" | KTailUnseal _ -> "tailunseal" | KTailSeal _ -> "tailseal"
+  | KExcluded fs -> "excluded:" ^ String.concat "," (List.map hexs fs)
+  | KOpaque _ -> "opaque"
+
+let show_check (c : chk) : string =
+  String.concat "/" (List.map show_step c.c_path) ^ " " ^ show_kind c.c_kind
+
 (* ---------------------------------------------------------------- outcomes *)
 let show_outcome = function
   | Ok v -> "OK " ^ tree_dv v
@@ -321,6 +341,10 @@ let () =
                 Printf.sprintf "N %d" (n (negs (checks t Pos [])));
                 Printf.sprintf "NS %d" (n (negs (checks (static_type t) Pos [])));
                 (if wk t [] then "WK 1" else "WK 0") ]
+          | "negs" ->
+              (* the negative checks of the type (the ones simplify must keep) *)
+              let t = parse_ty (parse_sx line) in
+              String.concat ";" (List.map show_check (negs (checks t Pos [])))
           | _ -> beh (String.split_on_char '\t' line)
         with Failure m -> "MODEL-ERR " ^ m
       in
